@@ -500,3 +500,35 @@ Definition unmarshal_into (dest : gval) (f : nat) (t : gty) (j : json) : gval * 
 Lemma unmarshal_into_atomic dest f t j : snd (unmarshal_into dest f t j) = false -> fst (unmarshal_into dest f t j) = dest.
 Proof. unfold unmarshal_into. destruct (dec f t j); cbn; congruence. Qed.
 End Lossless.
+
+(* ------------------------------------------------------------------ the method layout is shared by the two formats (C17) *)
+(* yaml_formatter.go and json_formatter.go emit the same sequence (raw map, before-validators, typed
+   decode into the shadow type, after-validators, additional-properties block, assignment); they
+   differ only in the library call that decodes a component.  With decoders that agree, the methods agree. *)
+Lemma omap_ext {A B} (g g' : A -> outcome B) (l : list A) : (forall x, g x = g' x) -> omap g l = omap g' l.
+Proof. intros H. induction l as [|x r IH]; cbn; [reflexivity|]. rewrite H, IH. reflexivity. Qed.
+
+Lemma plain_fields_ext decf decf' zf fs j : (forall t x, decf t x = decf' t x) -> plain_fields decf zf fs j = plain_fields decf' zf fs j.
+Proof.
+  intros H. destruct j; try reflexivity. cbn [plain_fields]. f_equal.
+  apply omap_ext. intros fl. destruct (f_addl fl); [reflexivity|]. destruct (lookup (f_json fl) kv); [|reflexivity]. rewrite H. reflexivity.
+Qed.
+
+Lemma before_step_ext decf decf' raw j v : (forall t x, decf t x = decf' t x) -> before_step decf raw j v = before_step decf' raw j v.
+Proof. intros H. destruct v; try reflexivity. cbn [before_step]. rewrite (map_ext _ _ (fun bt => H bt j)). reflexivity. Qed.
+
+Lemma run_before_ext decf decf' vs raw j : (forall t x, decf t x = decf' t x) -> run_before decf vs raw j = run_before decf' vs raw j.
+Proof.
+  intros H. unfold run_before. generalize (Ok tt : outcome unit). induction vs as [|v r IH]; intros o; cbn [fold_left]; [reflexivity|].
+  rewrite IH. f_equal. destruct o; cbn; try reflexivity. apply before_step_ext. exact H.
+Qed.
+
+Theorem run_method_ext decf decf' zf dvf fs under vs j :
+  (forall t x, decf t x = decf' t x) -> run_method decf zf dvf fs under vs j = run_method decf' zf dvf fs under vs j.
+Proof.
+  intros H. unfold run_method.
+  destruct (if existsb v_before vs || existsb v_raw_after vs then _ else _) as [raw| | |]; cbn [obind]; try reflexivity.
+  rewrite (run_before_ext decf decf') by exact H.
+  destruct (run_before decf' vs raw j); cbn [obind]; try reflexivity.
+  destruct fs as [fl|]; [rewrite (plain_fields_ext decf decf') by exact H; reflexivity|]. rewrite H. reflexivity.
+Qed.
